@@ -78,6 +78,8 @@ def classes_for(S, type_name: str, key: str, node: dict) -> list[VClass]:
                 add(VClass("STR_PLAIN", plain, "QUOTED"))
                 if a.sub == "PLAIN":
                     add(VClass("STR_PADDED", padded, "QUOTED"))
+                    # a string that spells a number (a symbol named "2", NAME "7") is still a string
+                    add(VClass("STR_DIGITS", lambda q: "12", "QUOTED"))
                     # content wrapped in the *other* quote character (TEXT "'[name]'"): those inner quotes are
                     # content, the value still needs its own pair
                     add(VClass("STR_IN_ALTQUOTES", lambda q: SStr([{'"': "'", "'": '"'}[q], Atom("inner", first=LOWER, last=WORD, excludes=frozenset("\"'`\\"), free=True), {'"': "'", "'": '"'}[q]]), "QUOTED"))
